@@ -65,6 +65,7 @@ type State struct {
 	Bal        map[string]sdk.Int            // all accounts holding the denom
 	PayAddr    map[string]string             // did -> payment address
 	DidBal     map[string]sdk.Int            // did -> balance held by the did module
+	DidOf      map[string]string             // account id -> did it is bound to
 	Supply     sdk.Int
 }
 
@@ -77,7 +78,7 @@ func Snapshot(c *chain.Chain) *State {
 		Metas: map[string]modeltypes.Metadata{}, Models: map[string]string{},
 		ExpData: map[uint64][]string{}, Timeouts: map[uint64][]uint64{}, ExpShards: map[uint64][]uint64{},
 		Nodes: map[string]nodetypes.Node{}, Pledges: map[string]nodetypes.Pledge{}, Debts: map[string]sdk.Int{},
-		Workers: map[string]markettypes.Worker{}, Bal: map[string]sdk.Int{}, PayAddr: map[string]string{}, DidBal: map[string]sdk.Int{}}
+		Workers: map[string]markettypes.Worker{}, Bal: map[string]sdk.Int{}, PayAddr: map[string]string{}, DidBal: map[string]sdk.Int{}, DidOf: map[string]string{}}
 	for _, o := range a.OrderKeeper.GetAllOrder(ctx) {
 		s.Orders[o.Id] = o
 	}
@@ -127,6 +128,9 @@ func Snapshot(c *chain.Chain) *State {
 	s.Supply = a.BankKeeper.GetSupply(ctx, chain.Denom).Amount
 	for _, pa := range a.DidKeeper.GetAllPaymentAddress(ctx) {
 		s.PayAddr[pa.Did] = pa.Address
+	}
+	for _, d := range a.DidKeeper.GetAllDid(ctx) {
+		s.DidOf[d.AccountId] = d.Did
 	}
 	for _, db := range a.DidKeeper.GetAllDidBalances(ctx) {
 		s.DidBal[db.Did] = db.Balance.Amount
